@@ -198,7 +198,9 @@ def _oracle(label, cases_quick, cases_thorough, **family):
 
 
 ORACLES = {
-    'C01': [_oracle('single-variable, and/or/not', 250, 3000, nvars=1, depth=3, neg=True, nested_neg=True)],
+    'C01': [_oracle('single-variable, and/or/not', 250, 3000, nvars=1, depth=3, neg=True, nested_neg=True),
+            _oracle('single-variable, bare attribute / index expressions of any type as conditions (truthiness), falsy data', 200, 3000,
+                    nvars=1, depth=2, neg=True, nested_neg=True, falsy=True, vocab=['truthy', 'truth', 'cmp', 'name'])],
     'C02': [_oracle('two variables, join conditions', 150, 2000, nvars=2, depth=2, neg=False, vocab=['cmp', 'name']),
             _oracle('three variables', 40, 600, nvars=3, depth=2, neg=False, vocab=['cmp'], n=2),
             _oracle('two / three variables, a proper subset selected (set of projected rows)', 150, 2000, nvars=2, depth=3, neg=False,
@@ -207,7 +209,9 @@ ORACLES = {
                     project=True),
             _oracle('selected variables and attribute expressions, one row per assignment', 100, 1500, kind='select')],
     'C03': [_oracle('nested negation, one variable', 200, 3000, nvars=1, depth=3, neg=True, nested_neg=True),
-            _oracle('nested negation, two variables', 100, 1500, nvars=2, depth=2, neg=True, nested_neg=True)],
+            _oracle('nested negation, two variables', 100, 1500, nvars=2, depth=2, neg=True, nested_neg=True),
+            _oracle('negated predicates (function and class form) and bare expressions', 150, 2000, nvars=1, depth=2, neg=True,
+                    nested_neg=True, falsy=True, vocab=['pred', 'truthy', 'cmp'])],
     'C06': [_oracle('the() vs number of solutions, evaluated twice', 200, 3000, kind='the'),
             _oracle('the() with a unique / no / several solutions (threshold conditions)', 150, 2000, kind='the', n=4, distinct_sizes=True),
             _oracle('the() over and_(or_(..), .., ..), evaluated twice', 100, 1500, kind='the', n=4, distinct_sizes=True, shape='and_or'),
@@ -220,6 +224,8 @@ ORACLES = {
             _oracle('an() with predicates and attribute conditions', 100, 1500, nvars=1, depth=2, vocab=['pred', 'cmp', 'name'], neg=True),
             _oracle('predicates inside a sub-query used as a domain, under each ambient mode', 60, 800, kind='domain_subquery')],
     'C15': [_oracle('an(entity) sub-query as a condition, and/or', 150, 2000, kind='subquery'),
+            _oracle('correlated sub-query (its condition mentions the outer variable) after other conditions', 150, 2000,
+                    kind='subquery', correlated=True),
             _oracle('the(entity) as a comparison operand, correlated with the enclosing query', 100, 1500, kind='the_operand')],
     'C07': [_oracle('one-shot iterator domains: pulls per result, nothing pulled twice (cache on)', 200, 3000, kind='lazy'),
             _oracle('one-shot iterator domains (cache off)', 100, 1500, kind='lazy', caching=False)],
@@ -250,10 +256,18 @@ ORACLES = {
                     nvars=2, rules=4, depth=2, n=3)],
     'C16': [_oracle('flatten, parent selected, no condition', 40, 400, kind='flatten', with_cond=False, select_parent=True),
             _oracle('flatten, parent selected, condition', 40, 400, kind='flatten', with_cond=True, select_parent=True),
-            _oracle('flatten only, condition', 40, 400, kind='flatten', with_cond=True, select_parent=False, falsy=True)],
+            _oracle('flatten only, condition', 40, 400, kind='flatten', with_cond=True, select_parent=False, falsy=True),
+            _oracle('flattened element selected BEFORE its parent, no condition', 60, 600, kind='flatten', with_cond=False,
+                    select_parent=True, element_first=True, n=4),
+            _oracle('flattened element selected before its parent, condition, falsy elements', 40, 400, kind='flatten', with_cond=True,
+                    select_parent=True, element_first=True, falsy=True)],
     'C19': [_oracle('falsy attribute values as operands', 200, 3000, nvars=1, depth=2, falsy=True, neg=True, nested_neg=True),
             _oracle('falsy / None values as selected outputs', 100, 1500, kind='select', single_attr=True),
-            _oracle('an expression object used as a condition, then as an operand', 100, 1500, kind='reuse')],
+            _oracle('an expression object used as a condition, then as an operand', 100, 1500, kind='reuse'),
+            _oracle('flatten over collections with falsy elements, parent selected', 60, 600, kind='flatten', with_cond=False,
+                    select_parent=True, falsy=True, n=4),
+            _oracle('flatten over collections with falsy elements, element only', 60, 600, kind='flatten', with_cond=False,
+                    select_parent=False, falsy=True, n=4)],
 }
 
 
